@@ -117,6 +117,8 @@ func errcode(body string) string {
 		return "EInvalidRequest"
 	case "invalid_client":
 		return "EInvalidClient"
+	case "invalid_grant":
+		return "EInvalidGrant"
 	case "unsupported_grant_type":
 		return "EUnsupportedGrantType"
 	case "server_error":
@@ -380,7 +382,9 @@ func exitCases(w *emit.Writer, g *gen, n int) {
 		if i < 4 { // the seeded regression: GetRefreshTokenInfo fails with a backend fault
 			x, k = 0, 2+int(rt)
 		}
-		l := flow(f, st, rt, "web", "web-secret", true)
+		fo := g.flowOpts("web")
+		fo.scopes = "openid offline_access"
+		l := flow(f, st, rt, fo, true)
 		var req *http.Request
 		post := func(path string, ps []pair) *http.Request {
 			q := httptest.NewRequest(http.MethodPost, opfix.Issuer+path, strings.NewReader(encode(ps)))
@@ -419,6 +423,59 @@ func exitCases(w *emit.Writer, g *gen, n int) {
 			Tags:     tags,
 			Human: map[string]any{"status": res.status, "body": short([]byte(res.body)), "panic": res.panic, "writes": res.writes,
 				"journal": st.JournalCopy(), "fault_hit": res.hit, "calls_after_first_write": res.end - res.atFirst},
+		})
+	}
+}
+
+// ---- redeeming a live code with / without a stored challenge (ICode) ----
+
+func codeCases(w *emit.Writer, g *gen, n int) {
+	r := g.r
+	st := opfix.NewStd()
+	f, err := opfix.New(st, opfix.Options{})
+	if err != nil {
+		panic(err)
+	}
+	vs := []string{"VNone", "VRight", "VWrong"}
+	for i := 0; i < n; i++ {
+		rt := opfix.Router(i % 2)
+		public, stored, v := r.Bool(), r.Bool(), r.IntN(3)
+		if i < 4 { // an unsolicited code_verifier for a request stored without a challenge
+			public, stored, v = false, false, 1+i/2
+		}
+		fo := g.flowOpts(drv.Pick(r, []string{"web", "web2"}))
+		if public {
+			fo.client = drv.Pick(r, []string{"spa", "native"})
+		}
+		fo.challenge = ""
+		if stored {
+			fo.challenge = drv.Pick(r, []string{"S256", "plain"})
+		}
+		l := flow(f, st, rt, fo, false)
+		send := map[int]string{0: "", 1: verifier, 2: "wrong-verifier-wrong-verifier-wrong-verifier-000"}[v]
+		ps, basic := fo.redeemForm(l.code, send)
+		req := httptest.NewRequest(http.MethodPost, opfix.Issuer+"/oauth/token", strings.NewReader(encode(ps)))
+		req.Header.Set("Content-Type", "application/x-www-form-urlencoded")
+		if len(basic) == 2 {
+			req.Header.Set("Authorization", basicHeader(basic[0], basic[1]))
+		}
+		res := do(f.Handlers[rt], req, st, fault{})
+		obs := "OGrant"
+		switch c := res.class(); {
+		case c != "RSingle":
+			obs = res.outcome()
+		case res.status >= 400:
+			obs = emit.Ctor("OResp", emit.Nat(res.status), errcode(res.body))
+		}
+		entry := "ViaProvider"
+		if rt == opfix.Legacy {
+			entry = "ViaLegacy"
+		}
+		w.Add(emit.Case{
+			Input:    fmt.Sprintf("(ICode {| c_entry := %s; c_public := %s; c_stored := %s; c_verifier := %s |})", entry, emit.Bool(public), emit.Bool(stored), vs[v]),
+			Observed: emit.Ctor("OHandler", obs),
+			Tags:     []string{"kind=code", "router=" + rt.String(), "client=" + fo.client, "challenge=" + fo.challenge, "verifier=" + vs[v]},
+			Human:    map[string]any{"form": encode(ps), "status": res.status, "body": short([]byte(res.body)), "panic": res.panic, "code": l.code},
 		})
 	}
 }
